@@ -53,15 +53,26 @@ type EdgeCrosser struct {
 
 // NewEdgeCrosser returns an EdgeCrosser with the fixed edge AB.
 func NewEdgeCrosser(a, b Point) *EdgeCrosser {
-	norm := a.PointCross(b)
-	return &EdgeCrosser{
-		a:        a,
-		b:        b,
-		aXb:      Point{a.Cross(b.Vector)},
-		aTangent: Point{a.Cross(norm.Vector)},
-		bTangent: Point{norm.Cross(b.Vector)},
+	e := &EdgeCrosser{a: a, b: b, aXb: Point{a.Cross(b.Vector)}}
+	// The tangents are computed from the unit normal of AB (as in C++, where
+	// RobustCrossProd(a, b) is normalized); the error bound used in crossingSign
+	// is only valid for a unit-length normal. (a+b) x (b-a) = 2 * (a x b) is
+	// computed with an absolute error of a few dblEpsilon, so when it is
+	// shorter than 2**-40 (A and B nearly identical or nearly antipodal; this
+	// includes the case where PointCross falls back to an arbitrary orthogonal
+	// vector) there is no reliable normal. The tangents then stay the zero
+	// vector, for which the outward-tangent test in crossingSign never succeeds.
+	if norm := a.Add(b.Vector).Cross(b.Sub(a.Vector)); norm.Norm2() >= minTangentNorm2 {
+		norm = norm.Normalize()
+		e.aTangent = Point{a.Cross(norm)}
+		e.bTangent = Point{norm.Cross(b.Vector)}
 	}
+	return e
 }
+
+// minTangentNorm2 is the smallest squared length of (a+b) x (b-a) for which
+// NewEdgeCrosser computes the outward-facing tangents of the edge AB.
+const minTangentNorm2 = 0x1p-80
 
 // CrossingSign reports whether the edge AB intersects the edge CD. If any two
 // vertices from different edges are the same, returns MaybeCross. If either edge
